@@ -46,7 +46,7 @@ ASSUMPTIONS = [
     "a point's own rectangle is accepted in the envelope whether or not it covers the point",
     "fixed_width_band_ci is exercised only with supports spanning the whole curve (nb_points or all scores)",
 ]
-PROBES = ["interrupt_fired", "sampler_raise_fired", "rule_of_three_low", "rule_of_three_high", "identity_sampler", "recording_builtin", "builtin_string", "degenerate_sampler",
+PROBES = ["caller_reuses_buffers", "interrupt_fired", "sampler_raise_fired", "rule_of_three_low", "rule_of_three_high", "identity_sampler", "recording_builtin", "builtin_string", "degenerate_sampler",
           "envelope_checked", "easy_source", "experimental_pointwise", "experimental_sjr", "experimental_fwb", "supplied_fnr",
           "supplied_fpr", "supplied_thresholds", "nb_points_given", "bca", "bc", "quantile", "envelope_widened"]
 
@@ -99,6 +99,8 @@ def generate(rnd, tier):
                 args["fpr"] = gen_rates(rnd)
             if rnd.random() < 0.3:
                 args["thresholds"] = [round(rnd.uniform(-7, 7), 2) for _ in range(rnd.randint(1, 5))]
+                if rnd.random() < 0.5:
+                    args["thresholds"] = sorted(args["thresholds"], reverse=rnd.random() < 0.3)
             if rnd.random() < 0.5:
                 args["nb_points"] = rnd.choice([2, 3, 5, 10, 11, 30])
         if fn == "roc_with_ci" and rnd.random() < 0.6:
@@ -378,6 +380,17 @@ def execute(scn, ctx):
                                             f"(bootstrap intervals of the recorded resamples + rule of three) is {exp_fnr_band.tolist()}")
                     except Exception as e:  # noqa: BLE001 - reference could not be evaluated: harness problem, surface it
                         raise RuntimeError(f"C16 reference model failed: {type(e).__name__}: {e}") from e
+        # the caller reuses its argument buffers after the call: the curve it was handed must not change
+        if res["ok"] and isinstance(res["value"], L.ROCCurve) and arrs:
+            before = M.canon(res["value"])
+            for a_ in arrs:
+                if a_.flags.writeable and a_.size:
+                    a_ += 0.37
+                    a_[:] = a_[::-1].copy()
+            probe("caller_reuses_buffers")
+            if M.canon(res["value"]) != before:
+                bad("result_independent_of_caller_arrays", f"the curve returned by {fn_name} changed when the caller wrote into the "
+                                                           f"fnr/fpr/thresholds arrays it had passed (the curve aliases a caller array)")
         trace.append([step, fn_name, tags, sorted(kw), sorted(set(fired)), outcome,
                       M.digest(M.canon(res["value"]))[:16] if res["ok"] else None, res["draws"]])
         inner = sspec.get("inner", sspec)
